@@ -308,7 +308,7 @@ class NamesModule:
                     int_fields.append((fname, nbytes * 8))
                     if tag is None:
                         tag = (fname, nbytes * 8)
-                drv_fields.append(dict(name=fname, cls=cls))
+                drv_fields.append(dict(name=fname, cls=cls, bits=nbytes * 8))
                 off += nbytes
             elif k < 0.5:
                 nbytes = r.choice([1, 2, 4])
@@ -330,7 +330,7 @@ class NamesModule:
             elif k < 0.8 and my_structs:
                 ref, sd = r.choice(my_structs)
                 body.append("%s  %d [+%d]  %s  %s" % (indent, off, sd["size"], ref, fname))
-                drv_fields.append(dict(name=fname, cls="struct"))
+                drv_fields.append(dict(name=fname, cls="struct", _sd=sd))
                 off += sd["size"]
             elif k < 0.88:
                 cnt = r.choice([1, 2, 3])
@@ -418,7 +418,7 @@ class NamesModule:
                 fn = self.snake(used)
                 body.append("%s  %d [+%d]  %s(%s)  %s" % (indent, off, sd["size"], ref, ", ".join(args), fn))
                 fields.append(dict(name=fn, kind="physical", requires=False))
-                drv_fields.append(dict(name=fn, cls="struct"))
+                drv_fields.append(dict(name=fn, cls="struct", _sd=sd))
                 off += sd["size"]
         # parameterised sub-structures at dynamic offsets / with dynamic sizes, arguments taken from fields
         dynamic = False
@@ -488,7 +488,7 @@ class NamesModule:
                 tyx = "%s(%s)%s" % (ref, ", ".join(args), "[]" if shape == "array-dynamic" else "[2]" if cls == "sarray" else "")
                 body.append("%s  %s  %s  %s" % (indent, loc, tyx, fn))
                 fields.append(dict(name=fn, kind="physical", requires=False))
-                drv_fields.append(dict(name=fn, cls=cls))
+                drv_fields.append(dict(name=fn, cls=cls, _sd=(sd if cls == "struct" else None)))
                 dynamic = True
                 self.features.add("param-struct-dynamic-location")
                 if field_valued and a in free and shape != "next":
@@ -501,24 +501,31 @@ class NamesModule:
                 vn = self.snake(used)
                 a = r.choice(int_fields)[0]
                 k = r.random()
+                extra_meta = {}
                 if k < 0.5 and narrow:
                     a = r.choice(narrow)
-                    body.append("%s  let %s = %s %s %d" % (indent, vn, a, r.choice("+-*"), r.randint(1, 9)))
-                    kind, cls = "virtual", "vint"
+                    op = r.choice("+-*")
+                    body.append("%s  let %s = %s %s %d" % (indent, vn, a, op, r.randint(1, 9)))
+                    # `x + c` and `x - c` are invertible: the virtual field is writable; `x * c` is read-only
+                    kind, cls = "virtual", ("vint_w" if op in "+-" else "vint")
+                    extra_meta = dict(bits=36, virt=True)
                     virt.append(vn)
                 elif k < 0.65:
                     body.append("%s  let %s = %s > %d" % (indent, vn, a, r.randint(0, 9)))
                     kind, cls = "virtual", "vbool"
                 elif k < 0.8:
-                    body.append("%s  let %s = %d" % (indent, vn, r.choice([0, 5, 255, 2**31, 2**32, 2**63 - 1, -2**63, -1, 2**64 - 1])))
+                    cv = r.choice([0, 5, 255, 2**31, 2**32, 2**63 - 1, -2**63, -1, 2**64 - 1])
+                    body.append("%s  let %s = %d" % (indent, vn, cv))
                     kind, cls = "virtual", "vconst"
+                    extra_meta = dict(const=cv)
                 else:
                     body.append("%s  let %s = %s" % (indent, vn, a))
                     kind, cls = "alias", "uint"
-                if r.random() < 0.2 and kind == "virtual" and cls == "vint":
+                    extra_meta = dict(bits=dict(int_fields)[a])
+                if r.random() < 0.2 and kind == "virtual" and cls in ("vint", "vint_w"):
                     body.append("%s    [requires: this < %d]" % (indent, r.randint(100, 10**6)))
                 fields.append(dict(name=vn, kind=kind, requires=False))
-                drv_fields.append(dict(name=vn, cls=cls))
+                drv_fields.append(dict(name=vn, cls=cls, **extra_meta))
             if self.bad("virtual-view-name-collision", 0.03):
                 a = r.choice(int_fields)[0]
                 base = r.choice(["foo", "ab", "x1", "val"])
@@ -536,6 +543,7 @@ class NamesModule:
                 body.append("%s  let %s = %s" % (indent, vn, virt[0]))
                 fields.append(dict(name=vn, kind="alias", requires=False))
                 drv_fields.append(dict(name=vn, cls="vint"))
+        self.dotted_virtuals(indent, body, fields, drv_fields, used)
         if enum_fields and r.random() < 0.5:
             fnm, ed = r.choice(enum_fields)
             ref = [x for x in my_enums if x[1] is ed][0][0]
@@ -574,6 +582,83 @@ class NamesModule:
         self.scopes.append(dict(kind="ns", where=".".join(path + [name]) + "::", validated=[f["name"] for f in fields if f["requires"]],
                                 structs=nested_structs, enums=nested_enums))
         return lines, desc
+
+    # ---- virtual fields over dotted references into nested structures ----------------
+    @staticmethod
+    def field_meta(f):
+        """(value kind, writable by the language rule, is a non-alias virtual, bits or None)"""
+        cls = f["cls"]
+        val = {"uint": "int", "int": "int", "flag": "bool", "enum": "enum", "vint": "int", "vint_w": "int", "vbool": "bool",
+               "vconst": "int", "venum": "enum"}.get(cls)
+        w = cls in ("uint", "int", "flag", "enum", "vint_w")
+        virt = cls in ("vint", "vint_w", "vbool", "vconst", "venum")
+        bits = f.get("bits")
+        if cls == "vconst":
+            bits = 41 if abs(f.get("const", 2**63)) < 2**40 else None
+        return val, w, virt, bits
+
+    def dotted_virtuals(self, indent, body, fields, drv_fields, used):
+        r = self.r
+        subs = [f for f in drv_fields if f["cls"] == "struct" and f.get("_sd")]
+        if not subs or r.random() > 0.75:
+            return
+        for _ in range(r.choice([1, 2, 2, 3, 4])):
+            sf = r.choice(subs)
+            path, sd = [sf["name"]], sf["_sd"]
+            inner = [f for f in sd["fields"] if f["cls"] == "struct" and f.get("_sd")]
+            if inner and r.random() < 0.4:                       # two levels deep
+                g = r.choice(inner)
+                path.append(g["name"])
+                sd = g["_sd"]
+                self.features.add("dotted-virtual-two-levels")
+            cands = [f for f in sd["fields"] if self.field_meta(f)[0] is not None]
+            if not cands:
+                continue
+            t = r.choice(cands)
+            ro = [f for f in cands if self.field_meta(f)[0] == "int" and not self.field_meta(f)[1]
+                  and (self.field_meta(f)[3] or 99) <= 41]
+            force_chain = False
+            if ro and r.random() < 0.5:        # an invertible chain over a read-only target must stay read-only
+                t, force_chain = r.choice(ro), True
+            val, w, virt, bits = self.field_meta(t)
+            ref = ".".join(path + [t["name"]])
+            vn = self.snake(used)
+            requires = None
+            narrow = val == "int" and bits is not None and bits <= 40
+            k = 0.0 if force_chain else r.random()
+            if val == "int" and narrow and k < 0.55:
+                c, d = r.randint(1, 9), r.randint(1, 9)
+                expr = r.choice(["%s + %d" % (ref, c), "%s - %d" % (ref, c), "%d + %s" % (c, ref), "%d - %s" % (c + 300, ref),
+                                 "%s + %d - %d" % (ref, c, d), "(%s - %d) + %d" % (ref, c, d)])
+                kind, cls = "virtual", ("vint_w" if w else "vint")
+                if not w:
+                    self.features.add("dotted-virtual-readonly-target")   # invertible chain over a read-only target
+            elif val == "int" and narrow and k < 0.7:
+                expr = r.choice(["%s * 2" % ref, "%s + %s" % (ref, ref), "$max(%s, 3)" % ref])
+                kind, cls = "virtual", "vint"
+            elif val == "int" and k < 0.8:
+                expr = "%s > %d" % (ref, r.randint(0, 9))
+                kind, cls = "virtual", "vbool"
+            else:
+                # alias; of a virtual target it is the known alias-of-virtual class
+                if virt and t["cls"] != "vconst" and not self.bad("alias-of-virtual", 0.1):
+                    continue
+                if t["cls"] == "vconst":
+                    continue
+                expr = ref
+                kind, cls = "alias", t["cls"]
+                if val == "int" and narrow and not virt and r.random() < 0.3:
+                    # an alias with an additional requirement is a transform, not an alias
+                    requires = "this < %d" % r.randint(200, 10**6)
+                    kind, cls = "virtual", ("vint_w" if w else "vint")
+                    if not w:
+                        self.features.add("dotted-virtual-readonly-target")
+            body.append("%s  let %s = %s" % (indent, vn, expr))
+            if requires:
+                body.append("%s    [requires: %s]" % (indent, requires))
+            self.features.add("dotted-virtual")
+            fields.append(dict(name=vn, kind=kind, requires=False))
+            drv_fields.append(dict(name=vn, cls=cls, bits=(44 if cls in ("vint", "vint_w") else bits)))
 
     def param_structs_visible(self, path, name):
         return [(sd["name"], sd) for sd in self.structs if sd["params"] and len(sd["cpp"]) == 1 and sd["name"] != name]
@@ -715,7 +800,8 @@ class NamesModule:
 
     def to_dict(self):
         def clean_struct(sd):
-            d = dict(name=sd["name"], cpp=sd["cpp"], size=sd["size"], fields=sd["fields"], nested=sd.get("nested", False),
+            d = dict(name=sd["name"], cpp=sd["cpp"], size=sd["size"], nested=sd.get("nested", False),
+                     fields=[{k: v for k, v in f.items() if not k.startswith("_")} for f in sd["fields"]],
                      dynamic=sd.get("dynamic", False),
                      params=[dict(name=p["name"], type=p["type"],
                                   enum=(p["enum"]["cpp"] if p["enum"] else None),
